@@ -269,6 +269,9 @@ class Production:
     node: ast.AST  # the event
     merged: ast.expr | None = None  # collection merged wholesale when its construction could not be followed
     key: ast.expr | None = None  # dict productions: the key expression
+    view: FuncInfo | None = None  # the (callee) view the event lives in when it was found through a helper call
+    binding: dict | None = None  # parameter of that helper -> argument expression in `caller`
+    caller: FuncInfo | None = None
 
 
 def _loops_around(view: FuncInfo, node: ast.AST, stop: ast.AST | None = None) -> list[tuple[ast.expr, ast.expr]]:
@@ -286,7 +289,61 @@ def _loops_around(view: FuncInfo, node: ast.AST, stop: ast.AST | None = None) ->
     return list(reversed(out))
 
 
-def productions(view: FuncInfo, e: ast.expr, depth: int = 0, seen: frozenset = frozenset()) -> list[Production]:
+def _bind_call(callee: FuncInfo, call: ast.Call) -> dict[str, ast.expr] | None:
+    a = callee.node.args
+    if a.vararg or a.kwarg or any(isinstance(x, ast.Starred) for x in call.args) or any(k.arg is None for k in call.keywords):
+        return None
+    pos = [p.arg for p in [*a.posonlyargs, *a.args]]
+    if callee.cls is not None and callee.outer is None and not callee.is_staticmethod and pos:
+        pos = pos[1:]
+    if len(call.args) > len(pos):
+        return None
+    out = dict(zip(pos, call.args))
+    for k in call.keywords:
+        out[k.arg] = k.value
+    return out
+
+
+def productions(view: FuncInfo, e: ast.expr, depth: int = 0, seen: frozenset = frozenset(), follow=None) -> list[Production]:
+    """`follow(view, call)` may return the view of the helper a call invokes: the elements the helper returns / yields are
+    then followed into it (the productions carry `view`, `binding` and `caller`)."""
+    if follow is not None:
+        got = _productions(view, e, depth, seen, follow)
+    else:
+        got = _productions(view, e, depth, seen, None)
+    return got
+
+
+def _into_helper(view: FuncInfo, call: ast.Call, follow, depth: int) -> list[Production] | None:
+    cv = follow(view, call)
+    if cv is None:
+        return None
+    base = getattr(cv, "base", cv)
+    binding = _bind_call(base, call)
+    if binding is None:
+        return None
+    out: list[Production] = []
+    yields = [n for n in all_nodes(cv) if isinstance(n, (ast.Yield, ast.YieldFrom)) and not any(isinstance(a, ast.Lambda) for a in ancestors(n))]
+    if yields:
+        for y in yields:
+            if isinstance(y, ast.Yield) and y.value is not None:
+                out.append(Production(y.value, _loops_around(cv, y), conds(cv, y), y))
+            elif isinstance(y, ast.YieldFrom):
+                out += _productions(cv, y.value, depth + 1, frozenset(), follow)
+    else:
+        rets = [n for n in all_nodes(cv) if isinstance(n, ast.Return) and n.value is not None and not any(isinstance(a, (ast.Lambda, ast.FunctionDef)) and a is not cv.node for a in ancestors(n))]
+        if not rets:
+            return None
+        for r in rets:
+            out += _productions(cv, r.value, depth + 1, frozenset(), follow)
+    for p in out:
+        if p.view is None:
+            p.view, p.binding, p.caller = cv, binding, view
+    return out
+
+
+def _productions(view: FuncInfo, e: ast.expr, depth: int, seen: frozenset, follow) -> list[Production]:
+    productions = lambda v, x, d=0, s=frozenset(): _productions(v, x, d, s, follow)  # noqa: E731
     if depth > 8:
         return [Production(None, [], [], e, merged=e)]
     if isinstance(e, (ast.ListComp, ast.SetComp, ast.GeneratorExp)):
@@ -321,6 +378,10 @@ def productions(view: FuncInfo, e: ast.expr, depth: int = 0, seen: frozenset = f
             return productions(view, e.args[0], depth + 1, seen)
         if isinstance(fn, ast.Attribute) and fn.attr in ("copy",) and not e.args:
             return productions(view, fn.value, depth + 1, seen)
+        if follow is not None:
+            got = _into_helper(view, e, follow, depth)
+            if got is not None:
+                return got
         return [Production(None, _loops_around(view, e), conds(view, e), e, merged=e)]
     if isinstance(e, ast.Name) and isinstance(e.ctx, ast.Load):
         if e.id in seen:
